@@ -25,7 +25,7 @@ OPS = ["+", "*", "star", "plus", "reverse", "rename", "renumber"]
 
 
 def plan(tier, seed):
-    return common.plan_shards(tier, seed, n_quick=200, n_thorough=1000, budget_quick=30, budget_thorough=300)
+    return common.plan_shards(tier, seed, n_quick=200, n_thorough=4000, budget_quick=30, budget_thorough=300)
 
 
 def gates(tier):
